@@ -54,7 +54,10 @@ def gen_session(rnd, nusers):
         else:
             ops.append(["stall"])
     end = rnd.random()
-    if end < 0.35:
+    if end < 0.08:
+        # QUIT (behind a few pipelined commands) and a reset without reading a single reply
+        ops.append(["quit_rst", rnd.randint(0, 30), rnd.choice([0.0, 0.0005, 0.01])])
+    elif end < 0.35:
         ops.append(["quit"])
     elif end < 0.55:
         ops.append(["vanish", "rst"])
@@ -100,6 +103,8 @@ class BoomServer(aioftp.Server):
 def run_case(case):
     rng = random.Random(case["seed"] * 7919 + 29)
     net = scenario.random_net(rng, allow_small_pipe=False)
+    if any(op[0] == "quit_rst" for s_ in case["sessions"] for op in s_["ops"]) and case["seed"] % 2:
+        net["capacity"], net["high_water"] = 7, 8  # the 221 (and what is queued before it) blocks in the write
     if case.get("net"):
         net.update(case["net"])
     limit = case["limit"]
@@ -186,6 +191,11 @@ def run_case(case):
                             pass
                         peer.close()
                         return
+                    elif op[0] == "quit_rst":
+                        peer.writer.write(b"NOOP\r\n" * op[1] + b"QUIT\r\n")
+                        await asyncio.sleep(op[2])
+                        peer.vanish("rst")
+                        return
                     elif op[0] == "vanish":
                         peer.vanish(op[1])
                         return
@@ -200,6 +210,7 @@ def run_case(case):
 
         async def probe():
             """behavioural conservation probe on the quiescent server"""
+            world.net.cfg.capacity, world.net.cfg.high_water = 262144, 65536  # the probe's own connections are ordinary ones
             opened = []
             try:
                 # (1) server-wide limit
